@@ -10,6 +10,7 @@ mod c15;
 mod c16;
 mod cbes;
 mod common;
+mod imkos;
 mod locktab;
 
 use std::{
@@ -48,6 +49,7 @@ fn generate(prop: &str, seed: u64, thorough: bool) -> Value {
         "C16" => serde_json::to_value(c16::generate(seed, thorough)).unwrap(),
         "C02" => serde_json::to_value(cbes::generate(seed, thorough)).unwrap(),
         "C16b" => serde_json::to_value(locktab::generate(seed, thorough)).unwrap(),
+        "C02i" => serde_json::to_value(imkos::generate(seed, thorough)).unwrap(),
         _ => panic!("unknown property {prop}"),
     }
 }
@@ -60,6 +62,7 @@ fn run(prop: &str, sc: &Value, replay: Option<Vec<String>>) -> Outcome {
         "C16" => c16::run(&serde_json::from_value(sc.clone()).unwrap(), replay),
         "C02" => cbes::run(&serde_json::from_value(sc.clone()).unwrap(), replay),
         "C16b" => locktab::run(&serde_json::from_value(sc.clone()).unwrap(), replay),
+        "C02i" => imkos::run(&serde_json::from_value(sc.clone()).unwrap(), replay),
         _ => panic!("unknown property {prop}"),
     }
 }
@@ -75,6 +78,7 @@ fn candidates(prop: &str, sc: &Value) -> Vec<Value> {
         "C16" => conv(c16::shrink_candidates(&serde_json::from_value(sc.clone()).unwrap())),
         "C02" => conv(cbes::shrink_candidates(&serde_json::from_value(sc.clone()).unwrap())),
         "C16b" => conv(locktab::shrink_candidates(&serde_json::from_value(sc.clone()).unwrap())),
+        "C02i" => conv(imkos::shrink_candidates(&serde_json::from_value(sc.clone()).unwrap())),
         _ => vec![],
     }
 }
